@@ -194,7 +194,7 @@ def run_history(prop, case, r, full_reopen=True, check_handles=False, post=None)
             r.transitions += 1
             if refused is not None:
                 if exc is None:
-                    if last:
+                    if last or case.get("single"):
                         r.viol("%s|%s|%s|accepted-but-must-be-refused" % (prop, opsig(op), tk),
                                "%s was accepted, the model refuses it" % json.dumps(op, ensure_ascii=False), {})
                     return
@@ -202,7 +202,7 @@ def run_history(prop, case, r, full_reopen=True, check_handles=False, post=None)
                 # state must be unchanged (m stays)
             else:
                 if exc is not None:
-                    if last:
+                    if last or case.get("single"):
                         r.viol("%s|%s|%s|raised-%s" % (prop, opsig(op), tk, type(exc).__name__),
                                "%s raised %s: %s" % (json.dumps(op, ensure_ascii=False), type(exc).__name__,
                                                      str(exc)[:150]), {})
@@ -213,12 +213,12 @@ def run_history(prop, case, r, full_reopen=True, check_handles=False, post=None)
             if ok and check_handles and s.mode == "rw":
                 ok = check_cached(prop, r, s, m, op, tk)
             if not ok:
-                if not last:
+                if not last and not case.get("single"):
                     # divergence belongs to a shorter history (reported there); do not extend
                     r.violations.pop()
                     r.bump("pruned_after_earlier_violation")
                 return
-            if last and post is not None and refused is None:
+            if (last or case.get("single")) and post is not None and refused is None:
                 if post(r, s, m_prev, m, op, tk, prev_map) is False:
                     return
         r.states.add(jhash(got))
@@ -244,3 +244,53 @@ def run_history(prop, case, r, full_reopen=True, check_handles=False, post=None)
         r.traces += 1
     finally:
         s.close()
+
+
+def soak_histories():
+    """Long hand-written histories from the mini seed (their prefixes are NOT cases of their own: run them with
+    case["single"] = True).  They cycle through create / link / change / delete / re-create under the same name /
+    re-link / reopen several times, with deletions in another order than creations."""
+    B = ["blocks", "blk"]
+    G, T = B + ["groups", "grp"], B + ["tags", "tag"]
+
+    def arr(n):
+        return B + ["data_arrays", n]
+    out = []
+    h = []
+    for cyc, (delmode, reop) in enumerate((("name", "rw"), ("id", "ro"), ("idx", "rw"), ("obj", "rw"))):
+        h += [["create", B, "data_arrays", "n1", [[1, 2], [3, 4]], "int16"],
+              ["link", G, "data_arrays", arr("n1")],
+              ["link", T, "references", arr("n1")],
+              ["create", B, "multi_tags", "n1", "n1"],
+              ["set", arr("n1"), "label", "cycle%d" % cyc],
+              ["create_feature", T, "n1", "Indexed"],
+              ["link", B + ["multi_tags", "n1"], "references", arr("sig")],
+              ["set_ref", B + ["multi_tags", "n1"], "extents", "n1"]]
+        if reop == "ro":
+            h += [["reopen", "ro"], ["reopen", "rw"]]
+        else:
+            h += [["reopen", "rw"]]
+        # the array goes first (cascade through group, tag, feature, multi tag positions and extents), then the multi tag
+        sel = "n1" if delmode != "idx" else 1
+        h += [["delete", B, "data_arrays", delmode, sel],
+              ["delete", B, "multi_tags", "name", "n1"],
+              ["delete", T, "features", "idx", 1]]
+    out.append(h)
+    # sources and sections: a subtree deleted and rebuilt three times, linked from the same lists each time
+    h = []
+    S1 = B + ["sources", "src"]
+    for cyc in range(3):
+        h += [["create", S1, "sources", "n1"],
+              ["create", S1 + ["sources", "n1"], "sources", "n1"],
+              ["link", G, "sources", S1 + ["sources", "n1", "sources", "n1"]],
+              ["link", T, "sources", S1 + ["sources", "n1"]],
+              ["set_meta", S1 + ["sources", "n1"], ["sections", "sec", "sections", "sec"]],
+              ["create", ["sections", "sec", "sections", "sec"], "props", "n1", [1, 2]],
+              ["pvalues", ["sections", "sec", "sections", "sec", "props", "n1"], "extend", [5]],
+              ["reopen", "rw"],
+              ["delete", S1, "sources", "name", "n1"],
+              ["delete", ["sections", "sec", "sections", "sec"], "props", "name", "n1"],
+              ["unlink", G, "data_arrays", "idx", 0],
+              ["link", G, "data_arrays", arr("sig")]]
+    out.append(h)
+    return out
